@@ -50,6 +50,9 @@ var builtTrees = []func() *expr.Expression{
 	},
 	func() *expr.Expression { return expr.Eq("name", "jo*n?") }, // LIKE built from raw strings
 	func() *expr.Expression {
+		return expr.AND(expr.Rang("a", 2.5, 2.5, true), expr.NOT(expr.Rang("b", "foo", "foo", true)))
+	},
+	func() *expr.Expression {
 		return expr.OR(expr.Rang("a", expr.WILD("x*"), expr.REGEXP("/y/"), true), expr.Expr("c", expr.Equals, expr.WILD("d?")))
 	},
 }
